@@ -8,10 +8,17 @@
     of the code: see [C15_distinct_names_distinct_keys_refuted] and
     [C15_collision_confers_authority_refuted]; the other theorems therefore speak about "the
     record stored under the name's key", and [C15_lookup_exact_unless_keys_collide] /
-    [C15_distinct_names_distinct_keys_same_profile] say exactly when that is the name's own record. *)
-From Coq Require Import NArith List String.
+    [C15_distinct_names_distinct_keys_same_profile] say exactly when that is the name's own record.
+
+    The theorems of the first part quantify over histories of the four name messages under FIXED
+    parameters ([run]); those of the second part (from [C15_ownership_under_params_in_force] on)
+    over histories of [msg] (Name/NameMsgs.v): the four messages, MsgUpdateParams and InitGenesis
+    imports, from an empty store under arbitrary initial parameters ([prun]). *)
+From Coq Require Import NArith List String Ascii.
 Import ListNotations.
-From PV Require Import Name.Name Proofs.NameProofs.
+From PV Require Import Name.Name Name.NameMsgs Name.NamePaging Name.NameUnicode
+  Proofs.NameProofs Proofs.NameMsgsProofs Proofs.NameHistoryProofs Proofs.NameValidProofs
+  Proofs.NamePagingProofs Proofs.NameGenesisProofs Proofs.NameAuthorityProofs Proofs.NameUnicodeProofs.
 Open Scope string_scope.
 Open Scope list_scope.
 
@@ -150,6 +157,292 @@ Theorem C15_distinct_names_distinct_keys_same_profile : forall n1 n2,
 Proof. exact same_profile_injective. Qed.
 Print Assumptions C15_distinct_names_distinct_keys_same_profile.
 
+(** * Second part: the full message surface *)
+
+(** Ownership under the parameters IN FORCE, after any history in which the parameters were
+    changed by governance and records were imported: a name message leaves the parameters alone,
+    a rejected one changes nothing, an accepted one satisfies the clauses of [C15_ownership] with
+    [p] = the parameters of the last accepted update / import. *)
+Theorem C15_ownership_under_params_in_force : forall (hash : string -> string) (p0 : params) (allow0 : bool) (ms : list msg) (o : op),
+  let ps := prun hash p0 allow0 ms in
+  let p := ps_p ps in
+  let s := ps_s ps in
+  let ps' := fst (pstep hash ps (MOp o)) in
+  let s' := ps_s ps' in
+  ps_p ps' = p /\ ps_allow ps' = ps_allow ps /\
+  (snd (pstep hash ps (MOp o)) = Err -> s' = s) /\
+  (snd (pstep hash ps (MOp o)) = Ok ->
+   match o with
+   | OpCreateRoot signer name owner restr =>
+       signer = gov_authority /\ get_record hash s name = None /\
+       (forall k r, rget s k = Some r -> rget s' k = Some r) /\
+       (forall k r, rget s' k = Some r ->
+          rget s k = Some r \/ (rget s k = None /\ r_addr r = owner /\ r_restricted r = restr))
+   | OpBind parent signer child owner restr =>
+       exists prec name k,
+         get_record hash s parent = Some prec /\
+         (r_restricted prec = true -> r_addr prec = signer) /\
+         normalize p (child ++ "." ++ parent) = Some name /\
+         name_key hash name = Some k /\ rget s k = None /\
+         rget s' k = Some {| r_name := name; r_addr := owner; r_restricted := restr |} /\
+         (forall k', k' <> k -> rget s' k' = rget s k')
+   | OpModify signer name owner restr =>
+       exists ex n k,
+         get_record hash s name = Some ex /\ (signer = gov_authority \/ signer = r_addr ex) /\
+         normalize p name = Some n /\ name_key hash n = Some k /\
+         rget s' k = Some {| r_name := n; r_addr := owner; r_restricted := restr |} /\
+         (forall k', k' <> k -> rget s' k' = rget s k')
+   | OpDelete name signer =>
+       exists ex n k,
+         normalize p name = Some n /\ name_key hash n = Some k /\
+         rget s k = Some ex /\ r_addr ex = signer /\
+         rget s' k = None /\ (forall k', k' <> k -> rget s' k' = rget s k')
+   end).
+Proof. exact ownership_params. Qed.
+Print Assumptions C15_ownership_under_params_in_force.
+
+(** "bound under a restricted parent only by that parent's owner", judged on the DIRECT PARENT OF
+    THE RESULTING NAME (everything after its first dot), for a hash that is injective: an accepted
+    bind found a record under the key of that direct parent, and if the record is restricted the
+    signer owns it.  (The handler looks the parent up as given in the message; the theorem says
+    that this is the resulting name's direct parent.) *)
+Theorem C15_bind_checks_direct_parent : forall (hash : string -> string),
+  (forall x y, hash x = hash y -> x = y) ->
+  forall p0 allow0 (ms : list msg) parent signer child owner restr,
+  let ps := prun hash p0 allow0 ms in
+  snd (pstep hash ps (MOp (OpBind parent signer child owner restr))) = Ok ->
+  exists name dp prec,
+    normalize (ps_p ps) (child ++ "." ++ parent) = Some name /\
+    parent_of name = Some dp /\
+    get_record hash (ps_s ps) dp = Some prec /\
+    (r_restricted prec = true -> r_addr prec = signer) /\
+    name_key_preimage (r_name prec) = name_key_preimage dp.
+Proof. exact bind_checks_direct_parent. Qed.
+Print Assumptions C15_bind_checks_direct_parent.
+
+(** MsgUpdateParams: accepted iff signed by the governance authority; it changes the parameters
+    and nothing else. *)
+Theorem C15_params_only_by_authority : forall (hash : string -> string) ps signer p allow,
+  (snd (pstep hash ps (MParams signer p allow)) = Ok ->
+     signer = gov_authority /\
+     fst (pstep hash ps (MParams signer p allow)) = {| ps_p := p; ps_allow := allow; ps_s := ps_s ps |}) /\
+  (snd (pstep hash ps (MParams signer p allow)) = Err ->
+     signer <> gov_authority /\ fst (pstep hash ps (MParams signer p allow)) = ps).
+Proof. exact params_only_by_authority. Qed.
+Print Assumptions C15_params_only_by_authority.
+
+(** allow_unrestricted_names is dead: replacing every flag of a history changes neither the
+    parameters in force, nor the name store, nor any verdict. *)
+Theorem C15_allow_unrestricted_names_is_dead : forall (hash : string -> string) b ms ps1 ps2,
+  ps_p ps1 = ps_p ps2 -> ps_s ps1 = ps_s ps2 ->
+  ps_p (prun_from hash ps1 (map (set_allow b) ms)) = ps_p (prun_from hash ps2 ms) /\
+  ps_s (prun_from hash ps1 (map (set_allow b) ms)) = ps_s (prun_from hash ps2 ms).
+Proof. exact allow_flag_is_dead. Qed.
+Print Assumptions C15_allow_unrestricted_names_is_dead.
+
+(** The by-address index after any history of the full message surface (owner changes move the
+    entry, deletes remove it, imports add it). *)
+Theorem C15_index_agrees_full : forall (hash : string -> string) p0 allow0 (ms : list msg) (a : addr),
+  let s := ps_s (prun hash p0 allow0 ms) in
+  (forall k, iget s (a, k) =
+             match rget s k with
+             | Some r => if N.eqb (r_addr r) a then Some r else None
+             | None => None
+             end) /\
+  (forall n, In n (reverse_lookup s a) <->
+             exists k r, rget s k = Some r /\ r_addr r = a /\ r_name r = n).
+Proof. exact index_agrees_params. Qed.
+Print Assumptions C15_index_agrees_full.
+
+Theorem C15_lookups_agree_up_to_key_full : forall (hash : string -> string) p0 allow0 (ms : list msg) (a : addr) (n : string),
+  let s := ps_s (prun hash p0 allow0 ms) in
+  (In n (reverse_lookup s a) -> resolves_to hash s n a = true) /\
+  (resolves_to hash s n a = true ->
+     In n (reverse_lookup s a) \/
+     exists n', n' <> n /\ In n' (reverse_lookup s a) /\ name_key hash n' = name_key hash n).
+Proof. exact lookups_agree_params. Qed.
+Print Assumptions C15_lookups_agree_up_to_key_full.
+
+(** What a lookup returns when parameters change: the stored name was valid under the
+    parameters in force when it was written — NOT necessarily under those in force now
+    ([C15_stored_names_valid_under_current_params_refuted]). *)
+Theorem C15_lookup_full : forall (hash : string -> string) p0 allow0 (ms : list msg) (n : string) (r : record),
+  get_record hash (ps_s (prun hash p0 allow0 ms)) n = Some r ->
+  name_key hash (r_name r) = name_key hash n /\ (exists p', valid p' (r_name r)) /\
+  (r_name r = n \/ (r_name r <> n /\ name_key hash (r_name r) = name_key hash n)).
+Proof. exact lookup_params. Qed.
+Print Assumptions C15_lookup_full.
+
+Theorem C15_stored_names_valid_under_current_params_refuted :
+  exists ms n r, let ps := prun (fun x : string => x) default_params true ms in
+    get_record (fun x : string => x) (ps_s ps) n = Some r /\ normalize (ps_p ps) (r_name r) = None.
+Proof. exact stored_names_valid_under_current_params_refuted. Qed.
+Print Assumptions C15_stored_names_valid_under_current_params_refuted.
+
+(** ... and such a name is frozen: after governance tightened the limits, the owner can neither
+    delete nor modify "abcdef", governance cannot modify it, nobody can bind under it; it still
+    resolves; relaxing the limits thaws it.  (Observation, not a clause of the property.) *)
+Theorem C15_tightened_params_freeze_names :
+  let h := fun x : string => x in
+  let tight := {| p_min_seg := 2; p_max_seg := 3; p_max_levels := 2 |} in
+  let ps := prun h default_params true [MOp (OpCreateRoot 0%N "abcdef" 1%N false); MParams 0%N tight true] in
+  ps_p ps = tight /\
+  get_record h (ps_s ps) "abcdef" = Some {| r_name := "abcdef"; r_addr := 1%N; r_restricted := false |} /\
+  normalize (ps_p ps) "abcdef" = None /\
+  snd (pstep h ps (MOp (OpDelete "abcdef" 1%N))) = Err /\
+  snd (pstep h ps (MOp (OpModify 1%N "abcdef" 2%N false))) = Err /\
+  snd (pstep h ps (MOp (OpModify 0%N "abcdef" 2%N false))) = Err /\
+  snd (pstep h ps (MOp (OpBind "abcdef" 1%N "ab" 1%N false))) = Err /\
+  (let ps' := fst (pstep h ps (MParams 0%N default_params true)) in
+   snd (pstep h ps' (MOp (OpDelete "abcdef" 1%N))) = Ok).
+Proof. exact tightened_params_freeze_names. Qed.
+Print Assumptions C15_tightened_params_freeze_names.
+
+(** * Normalisation *)
+
+(** The model's validity predicate IS the documented rule ([doc_valid], Name/Name.v: at most
+    max_levels segments; each at least min bytes and either UUID-shaped in normal form — of any
+    length — or lower-case letters / digits / at most one dash and at most max bytes). *)
+Theorem C15_valid_iff : forall p n, valid p n <-> doc_valid p n = true.
+Proof. exact valid_iff. Qed.
+Print Assumptions C15_valid_iff.
+
+(** Validity is inherited by the direct parent. *)
+Theorem C15_parent_of_valid_is_valid : forall p n dp, valid p n -> parent_of n = Some dp -> valid p dp.
+Proof. exact parent_of_valid. Qed.
+Print Assumptions C15_parent_of_valid_is_valid.
+
+(** The UTF-8 widening (Name/NameUnicode.v: Unicode TrimSpace / ToLower / IsLower / IsDigit on a
+    tabulated part of Unicode) is conservative: on ASCII input it is defined and equals the
+    ASCII model every other theorem speaks about. *)
+Theorem C15_unicode_model_conservative : forall p s,
+  forallb (fun c => (N_of_ascii c <? 128)%N) (chars s) = true -> normalize_utf8 p s = Some (normalize p s).
+Proof. exact normalize_utf8_ascii. Qed.
+Print Assumptions C15_unicode_model_conservative.
+
+(** * The store key: exact characterisation of collisions *)
+
+Section InjectiveHash.
+  Variable hash : string -> string.
+  Hypothesis Hinj : forall x y, hash x = hash y -> x = y.
+
+  (** For an injective hash, two names share a store key iff they have the same pre-image ... *)
+  Theorem C15_keys_equal_iff_preimage_equal : forall n1 n2,
+    name_key hash n1 = name_key hash n2 <-> name_key_preimage n1 = name_key_preimage n2.
+  Proof. exact (keys_equal_iff_preimage_equal hash Hinj). Qed.
+
+  (** ... which for valid names is: the concatenation of the segments in reverse order, without
+      separator, is the same string. *)
+  Theorem C15_valid_names_collide_iff_reversed_concatenations_equal : forall p n1 n2,
+    (1 <= p_min_seg p)%N -> valid p n1 -> valid p n2 ->
+    (name_key hash n1 = name_key hash n2 <->
+     String.concat "" (rev (split_dots n1)) = String.concat "" (rev (split_dots n2))).
+  Proof. exact (keys_equal_iff_revcat hash Hinj). Qed.
+
+  (** Resolution is ambiguous only inside such a class: whatever a lookup of [n] returns has
+      [n]'s pre-image; when no other well-formed name has it, the lookup is exact. *)
+  Theorem C15_ambiguity_only_inside_preimage_class : forall p0 allow0 (ms : list msg) n r,
+    get_record hash (ps_s (prun hash p0 allow0 ms)) n = Some r ->
+    name_key_preimage (r_name r) = name_key_preimage n.
+  Proof. exact (ambiguity_only_inside_preimage_class hash Hinj). Qed.
+
+  Theorem C15_lookup_exact_when_class_is_singleton : forall p0 allow0 (ms : list msg) n r,
+    (forall m, (exists p raw, normalize p raw = Some m) -> name_key_preimage m = name_key_preimage n -> m = n) ->
+    get_record hash (ps_s (prun hash p0 allow0 ms)) n = Some r -> r_name r = n.
+  Proof. exact (lookup_exact_when_class_is_singleton hash Hinj). Qed.
+End InjectiveHash.
+Print Assumptions C15_keys_equal_iff_preimage_equal.
+Print Assumptions C15_valid_names_collide_iff_reversed_concatenations_equal.
+Print Assumptions C15_ambiguity_only_inside_preimage_class.
+Print Assumptions C15_lookup_exact_when_class_is_singleton.
+
+(** * Reverse lookup with paging *)
+
+(** After any history, for every address and every limit >= 1: a client that follows next keys,
+    and one that asks for offsets 0, limit, 2*limit, …, both receive exactly the one-page listing
+    — every name once, same order — in pages whose sizes depend only on the number of names
+    (every page full but the last); and the listing has no duplicates. *)
+Theorem C15_paged_reverse_lookup_complete : forall (hash : string -> string) p0 allow0 (ms : list msg) (a : addr) (limit fuel : nat),
+  let s := ps_s (prun hash p0 allow0 ms) in
+  let l := idx_view s a in
+  let hit := fun r : record => N.eqb (r_addr r) a in
+  (1 <= limit)%nat -> (List.length l < fuel)%nat ->
+  (exists pages, follow_keys String.eqb hit fuel l None limit = Some pages /\
+     map r_name (List.concat pages) = reverse_lookup s a /\
+     map (@List.length record) pages = chunk_sizes (List.length (reverse_lookup s a)) limit fuel) /\
+  (exists pages, follow_offsets String.eqb hit fuel l 0 limit = Some pages /\
+     map r_name (List.concat pages) = reverse_lookup s a /\
+     map (@List.length record) pages = chunk_sizes (List.length (reverse_lookup s a)) limit fuel) /\
+  NoDup (reverse_lookup s a).
+Proof. exact paged_reverse_lookup_complete. Qed.
+Print Assumptions C15_paged_reverse_lookup_complete.
+
+(** The index key prefix 0x05 ‖ len(addr) ‖ addr is unambiguous: the prefix scan for address [a]
+    never sees an entry of another address [b], even when a's bytes are a prefix of b's
+    (20-byte account vs. 32-byte address that extends it). *)
+Theorem C15_address_prefix_unambiguous : forall (a b rest : list N),
+  is_prefix (addr_key_prefix a) (addr_key_prefix b ++ rest) = true -> a = b.
+Proof. exact addr_prefix_unambiguous. Qed.
+Print Assumptions C15_address_prefix_unambiguous.
+
+(** * Genesis import *)
+
+(** What InitGenesis accepts: a successful import wrote every binding — normalised, with the
+    owner and flag as written — under a key that was free; no two bindings share a key (so no
+    duplicates and no two spellings of one name); existing records stay; nothing else appears.
+    Parents are NOT looked at ([C15_genesis_accepts_orphans]). Lookups agree afterwards by
+    [C15_index_agrees_full] (imports are steps of the histories it quantifies over). *)
+Theorem C15_genesis_import_spec : forall (hash : string -> string) p bs s s',
+  import_bindings hash p s bs = Some s' ->
+  Forall (fun b : binding => let '(raw, a, r) := b in
+            exists n k, normalize p raw = Some n /\ name_key hash n = Some k /\ rget s k = None /\
+                        rget s' k = Some {| r_name := n; r_addr := a; r_restricted := r |}) bs /\
+  NoDup (map (bkey hash p) bs) /\
+  (forall k r, rget s k = Some r -> rget s' k = Some r) /\
+  (forall k r, rget s' k = Some r -> rget s k = Some r \/
+      exists raw a rs n, In (raw, a, rs) bs /\ normalize p raw = Some n /\ name_key hash n = Some k /\
+                         r = {| r_name := n; r_addr := a; r_restricted := rs |}).
+Proof. exact import_bindings_spec. Qed.
+Print Assumptions C15_genesis_import_spec.
+
+Theorem C15_genesis_rejects_duplicates : forall (hash : string -> string) p s bs1 b1 bs2 b2 bs3,
+  bkey hash p b1 = bkey hash p b2 -> import_bindings hash p s (bs1 ++ b1 :: bs2 ++ b2 :: bs3) = None.
+Proof. exact import_bindings_rejects_duplicates. Qed.
+Print Assumptions C15_genesis_rejects_duplicates.
+
+Theorem C15_genesis_rejects_invalid_names : forall (hash : string -> string) p s bs1 raw a r bs2,
+  normalize p raw = None -> import_bindings hash p s (bs1 ++ (raw, a, r) :: bs2) = None.
+Proof. exact import_bindings_rejects_invalid. Qed.
+Print Assumptions C15_genesis_rejects_invalid_names.
+
+(** A record whose parent is neither stored nor imported is accepted; nobody can then bind under
+    the missing parent, anybody can bind under the orphan (it is unrestricted). *)
+Theorem C15_genesis_accepts_orphans :
+  let h := fun x : string => x in
+  exists s,
+    import_bindings h default_params init [("cc.aa.pb", 3%N, false)] = Some s /\
+    get_record h s "cc.aa.pb" = Some {| r_name := "cc.aa.pb"; r_addr := 3%N; r_restricted := false |} /\
+    get_record h s "aa.pb" = None /\
+    get_record h s "pb" = None /\
+    snd (step h default_params s (OpBind "aa.pb" 1%N "dd" 1%N false)) = Err /\
+    snd (step h default_params s (OpBind "cc.aa.pb" 7%N "dd" 7%N false)) = Ok.
+Proof. exact genesis_accepts_orphan. Qed.
+Print Assumptions C15_genesis_accepts_orphans.
+
+(** An exported genesis cannot be imported after governance tightened the limits below a stored
+    name (InitGenesis panics).  Observation next to the property; it concerns C18's clause. *)
+Theorem C15_export_import_fails_after_tightening :
+  let h := fun x : string => x in
+  let tight := {| p_min_seg := 2; p_max_seg := 3; p_max_levels := 2 |} in
+  let ps := prun h default_params true [MOp (OpCreateRoot 0%N "abcdef" 1%N false); MParams 0%N tight true] in
+  ps_p ps = tight /\
+  map (fun kr : string * record => (r_name (snd kr), r_addr (snd kr), r_restricted (snd kr))) (st_recs (ps_s ps))
+    = [("abcdef", 1%N, false)] /\
+  import_bindings h tight init [("abcdef", 1%N, false)] = None /\
+  snd (pstep h (pstart default_params true) (MGenesis tight true [("abcdef", 1%N, false)])) = Err.
+Proof. exact export_import_fails_after_tightening. Qed.
+Print Assumptions C15_export_import_fails_after_tightening.
+
 (** Non-vacuity: a history with every message kind, accepted and rejected, whose final state
     has the index in step; and the profile hypotheses hold of ordinary names. *)
 Example C15_witness :
@@ -163,3 +456,24 @@ Example C15_witness :
   map String.length (split_dots "aa.pb") = map String.length (split_dots "bb.pb") /\
   name_key_preimage "aa.pb" <> name_key_preimage "bb.pb".
 Proof. vm_compute. repeat split. intros H. discriminate H. Qed.
+
+(** Non-vacuity of the second part: a history with an import (one binding in a padded, capitalised
+    spelling), binds, a parameter update refused to a user and accepted from the authority, a
+    bind refused under the tightened limits, an authority modify, and a delete refused because
+    the name (three levels) is no longer valid; the by-address listings at the end. *)
+Example C15_witness_full :
+  let h := fun x : string => x in
+  let tight := {| p_min_seg := 2; p_max_seg := 3; p_max_levels := 2 |} in
+  let ms := [MGenesis default_params true [("pb", 1%N, true); (" Aa . PB ", 2%N, false)];
+             MOp (OpBind "aa.pb" 3%N "cc" 3%N false);
+             MParams 3%N tight true; MParams 0%N tight false;
+             MOp (OpBind "pb" 1%N "toolong" 1%N false);
+             MOp (OpBind "pb" 1%N "bb" 4%N false);
+             MOp (OpModify 0%N "pb" 2%N false);
+             MOp (OpDelete "cc.aa.pb" 3%N)] in
+  map (fun n => snd (pstep h (prun h default_params true (firstn n ms)) (nth n ms (MParams 9%N tight true)))) (seq 0 8)
+    = [Ok; Ok; Err; Ok; Err; Ok; Ok; Err] /\
+  reverse_lookup (ps_s (prun h default_params true ms)) 2%N = ["pb"; "aa.pb"] /\
+  reverse_lookup (ps_s (prun h default_params true ms)) 3%N = ["cc.aa.pb"] /\
+  ps_p (prun h default_params true ms) = tight /\ ps_allow (prun h default_params true ms) = false.
+Proof. vm_compute. repeat split. Qed.
